@@ -111,7 +111,7 @@ class Ctx:
 class Obligation:
     def __init__(self, oid, title, setup, run, replay, *, exact=True, functions=(), bounds="", stubs=(),
                  assumptions=(), timeout_s=1200, query_timeout_s=600, max_paths=20000, validate=None,
-                 tiers=("quick", "thorough"), degraded_models=24, expect_paths_min=1, cost=1, explore_budget_s=None, tactic=None, logic=None):
+                 tiers=("quick", "thorough"), degraded_models=24, expect_paths_min=1, cost=1, explore_budget_s=None, tactic=None, logic=None, portfolio=None):
         self.id, self.title = oid, title
         self.setup, self.run, self.replay = setup, run, replay
         self.exact = exact
@@ -123,6 +123,7 @@ class Obligation:
         self.cost = cost
         self.explore_budget_s = explore_budget_s if explore_budget_s is not None else 0.6 * timeout_s
         self.tactic = tactic
+        self.portfolio = portfolio      # None or (n_probes, probe_seconds): seed portfolio for queries whose z3 run time depends strongly on the random seed
         self.logic = logic      # None: z3's default combined solver; 'simple': z3.SimpleSolver (plain SMT core); else a logic name
 
 
@@ -176,6 +177,8 @@ def _run_obligation(args):
         eng = Engine(timeout_ms=int(ob.query_timeout_s * 1000), seed=seed, max_paths=ob.max_paths, logic=ob.logic)
         eng.deadline = time.time() + ob.explore_budget_s
         eng.tactic = getattr(ob, "tactic", None)
+        if getattr(ob, "portfolio", None):
+            eng.portfolio = (int(ob.portfolio[0]), int(ob.portfolio[1] * 1000))
         ctx = Ctx(ob, eng, known)
         w = _WORLD[0]
 
